@@ -137,10 +137,7 @@ theorem pollEvent_matches_source (cfg : Cfg) (s : St) (e : Event) :
 /-! ### control structure regenerated as decision trees (`"kind": "tree"`)
 
 Which exit is reached under which conditions, in which order the conditions are tested, and what
-each `return` returns are read off the source on every run.  Not covered by a tree: the body of the
-event loop in `checkEvents` — it tests two different variables both named `ok` (`_, ok :=
-c.visited.Get(…)` and `v, ok := c.cache.Get(…)`), which the translator maps to ONE parameter; its
-order of tests stays asserted by `pollEvent_matches_source` only.  `Cache.Set` has no exit to tie. -/
+each `return` returns are read off the source on every run.  `Cache.Set` has no exit to tie. -/
 
 /-- **`Accept` is the source's decision tree**: the answer is the value returned at the exit the tree
 takes, and the record is (re)written exactly at the two `return true` exits, for every state -/
@@ -189,5 +186,80 @@ theorem cacheGet_tree_matches_source {α : Type} (c : Cache α) (k : String) (no
     obtain ⟨v, e⟩ := p
     by_cases h1 : e > 0 <;> by_cases h2 : now > e <;>
       simp [Gen.Src.c06CacheGetTree, cacheGetOutcome, expired, h1, h2]
+
+/-- the disposition of an event at each exit of the event-loop body (`c06EventBodyTree`, marks on the two
+`c.cache.Set(` writes): 1–3 the three `continue`s, 4 / 5 the write for the awaited / a newer check block,
+0 the end of the body (old event) -/
+private def dispOfExit : Nat → Disp
+  | 1 => .lowConf
+  | 2 => .visited
+  | 3 => .unknown
+  | 4 => .same
+  | 5 => .newer
+  | _ => .old
+
+/-- **the body of the event loop in `checkEvents` is the source's decision tree** (the two variables
+named `ok` are separate parameters: `visited`, `found`): the disposition is the exit taken; the record is
+rewritten exactly where a marked `c.cache.Set(` is reached (kind 4); the event is marked visited exactly
+where `c.visited.Set(` is reached in the second tree; and the three other exits are `continue`s (kind 2)
+that leave the whole state as it is — for every configuration, state and event -/
+theorem pollEvent_tree_matches_source (cfg : Cfg) (s : St) (e : Event) :
+    let vis := (s.visited.get (visitedID e) s.now).isSome
+    let found := (s.cache.get e.workID s.now).isSome
+    let awaited := (s.cache.get e.workID s.now).get!.checkBlock
+    let exit := Gen.Src.c06EventBodyTree e.conf cfg.minConf vis found e.checkBlock awaited
+    let vexit := Gen.Src.c06EventVisitTree e.conf cfg.minConf vis found
+    (pollEvent cfg s e).2 = dispOfExit exit ∧
+    (pollEvent cfg s e).1.cache =
+      (if Gen.Src.c06EventBodyTreeKind exit = 4 then s.cache.set cfg.window e.workID (eventRec e) 0 s.now else s.cache) ∧
+    (pollEvent cfg s e).1.visited =
+      (if Gen.Src.c06EventVisitTreeKind vexit = 4 then s.visited.set cfg.window (visitedID e) true cfg.window s.now
+       else s.visited) ∧
+    (Gen.Src.c06EventBodyTreeKind exit = 2 → (pollEvent cfg s e).1 = s ∧ Gen.Src.c06EventVisitTreeKind vexit = 2) ∧
+    -- how the body is left: `continue` for the three skipped dispositions (never `break` / `return`: the
+    -- events after it are still looked at), a marked write for same / newer, the end of the body for old
+    Gen.Src.c06EventBodyTreeKind exit = (match dispOfExit exit with
+      | .lowConf | .visited | .unknown => 2
+      | .same | .newer => 4
+      | .old => 0) := by
+  unfold pollEvent
+  by_cases hc : e.conf < cfg.minConf
+  · simp [Gen.Src.c06EventBodyTree, Gen.Src.c06EventVisitTree, Gen.Src.c06EventBodyTreeKind,
+      Gen.Src.c06EventVisitTreeKind, dispOfExit, hc]
+  · cases hv : s.visited.get (visitedID e) s.now with
+    | some _ =>
+      simp [Gen.Src.c06EventBodyTree, Gen.Src.c06EventVisitTree, Gen.Src.c06EventBodyTreeKind,
+        Gen.Src.c06EventVisitTreeKind, dispOfExit, hc]
+    | none =>
+      cases hg : s.cache.get e.workID s.now with
+      | none =>
+        simp [Gen.Src.c06EventBodyTree, Gen.Src.c06EventVisitTree, Gen.Src.c06EventBodyTreeKind,
+          Gen.Src.c06EventVisitTreeKind, dispOfExit, hc]
+      | some v =>
+        by_cases h1 : e.checkBlock = v.checkBlock
+        · have : ({ eventRec e with checkBlock := v.checkBlock } : Rec) = eventRec e := by simp [eventRec, h1]
+          simp [Gen.Src.c06EventBodyTree, Gen.Src.c06EventVisitTree, Gen.Src.c06EventBodyTreeKind,
+            Gen.Src.c06EventVisitTreeKind, dispOfExit, hc, h1, this]
+        · by_cases h2 : e.checkBlock > v.checkBlock
+          · simp [Gen.Src.c06EventBodyTree, Gen.Src.c06EventVisitTree, Gen.Src.c06EventBodyTreeKind,
+              Gen.Src.c06EventVisitTreeKind, dispOfExit, hc, h1, h2]
+          · simp [Gen.Src.c06EventBodyTree, Gen.Src.c06EventVisitTree, Gen.Src.c06EventBodyTreeKind,
+              Gen.Src.c06EventVisitTreeKind, dispOfExit, hc, h1, h2]
+
+/-- every exit of `Accept`, `ShouldTransmit` and `Cache.Get` is a `return` (no exit falls off the end) -/
+theorem exits_are_returns_matches_source (found : Bool) (a b e now : Nat) (p : Bool) :
+    Gen.Src.c06AcceptTreeKind (Gen.Src.c06AcceptTree found a b) = 1 ∧
+    Gen.Src.c06ShouldTransmitTreeKind (Gen.Src.c06ShouldTransmitTree found a b p) = 1 ∧
+    Gen.Src.c06CacheGetTreeKind (Gen.Src.c06CacheGetTree found e now) = 1 := by
+  refine ⟨?_, ?_, ?_⟩
+  · simp only [Gen.Src.c06AcceptTree]
+    repeat' split
+    all_goals rfl
+  · simp only [Gen.Src.c06ShouldTransmitTree]
+    repeat' split
+    all_goals rfl
+  · simp only [Gen.Src.c06CacheGetTree]
+    repeat' split
+    all_goals rfl
 
 end AutoVerif.C06
